@@ -158,9 +158,11 @@ def check(res, tier):
     reqs += [(l, r) for l, r in malformed.requests(rng, ddp, base[:10], quick) if l != "short" or rng.below(4) == 0]
     for _, r in reqs:
         r["render"] = True
+        r["dump"] = ["ranges"]
     answers = probe.probe(harness, [r for _, r in reqs], ddp)
     st = Counter()
     ndiags = 0
+    nranges = 0
     range_reqs, range_want = [], []
     for (label, rq), a in zip(reqs, answers):
         res.evaluations += 1
@@ -201,6 +203,37 @@ def check(res, tier):
             range_want.append(in_text(texts[f], d["range"]))
             if not in_text(texts[f], d["range"]):
                 problems.append("range %s of a diagnostic (code %d) does not lie inside %s (or starts after its end)" % (d["range"], d["code"], f))
+        # the ranges stored in the syntax tree (what later diagnostics will point at): every composite expression has a
+        # range of its own, start <= end, and it covers the ranges of its operands
+        def parse_rg(t):
+            x, y = t.split("-")
+            return tuple(int(v) for v in x.split(":")) + tuple(int(v) for v in y.split(":"))
+        for ln in ((a.get("extra") or {}).get("ranges") or []):
+            toks = ln.split(" ")
+            # kind may contain spaces (operator names): the ranges are the trailing tokens of the form a:b-c:d
+            k = len(toks)
+            while k > 0 and toks[k - 1].count(":") == 2 and "-" in toks[k - 1] and toks[k - 1].replace(":", "").replace("-", "").isdigit():
+                k -= 1
+            kind, rgs = " ".join(toks[:k]), [parse_rg(t) for t in toks[k:]]
+            if not rgs:
+                continue
+            nranges += 1
+            own, kids = rgs[0], rgs[1:]
+            bad = None
+            if own[0] < 1 or own[1] < 1 or (own[0], own[1]) > (own[2], own[3]):
+                bad = "the %s expression has the range %s (no position, or its start lies behind its end)" % (kind, own)
+            elif not a["faulty"]:      # after a syntax error the tree contains stand-ins positioned where parsing resumed
+                for kr in kids:
+                    if kr == (0, 0, 0, 0):
+                        bad = "an operand of the %s expression at %s has no range (0:0-0:0)" % (kind, own)
+                    elif (kr[0], kr[1]) > (kr[2], kr[3]) or (kr[0], kr[1]) < (own[0], own[1]) or (kr[2], kr[3]) > (own[2], own[3]):
+                        if not kind.startswith("call:") and not kind.startswith("binary:logarithmus"):
+                            bad = "the range %s of the %s expression does not cover its operand at %s" % (own, kind, kr)
+                    if bad:
+                        break
+            if bad:
+                problems.append(bad)
+                break
         if (a.get("extra") or {}).get("render-panic"):
             problems.append("the source-excerpt renderer panicked: " + "; ".join(a["extra"]["render-panic"][:2])[:300])
         for pr in problems[:2]:
@@ -231,9 +264,10 @@ def check(res, tier):
                           "kddp %s although the module is %s" % ("failed" if failed else "exited 0 and produced an object", "faulty" if faulty_of[id(rq)] else "not faulty"),
                           {"request": rq, "program": rq["files"].get("main.ddp"), "implementation": r.as_dict()})
     evalcorr.report_broken(res, broken)
-    res.extra.update({"inputs": len(reqs), "diagnostics_checked": ndiags, "outcomes": dict(sorted(st.items())), "level_error": lv_error, "level_warn": lv_warn})
+    res.extra.update({"inputs": len(reqs), "diagnostics_checked": ndiags, "expression_ranges_checked": nranges, "outcomes": dict(sorted(st.items())), "level_error": lv_error, "level_warn": lv_warn})
     res.rule = ("well-formed programs, the same with a `...` statement (warning only), AST and text mutants, an error inside an imported "
                 "module, malformed inputs: Faulty == exists error-level diagnostic; every range inside the text of the file it names, "
-                "start <= end; the real MakeAdvancedHandler renders every diagnostic without panic; kddp's exit status and object file "
+                "start <= end; every composite expression of the syntax tree has a range that starts before it ends and covers its operands; "
+                "the real MakeAdvancedHandler renders every diagnostic without panic; kddp's exit status and object file "
                 "agree with the flag")
     res.assumptions += ["columns are judged in code points; files that are not valid UTF-8 are excluded from the column check"]
